@@ -131,9 +131,17 @@ def _group_codecs(inst, scalars, acc, full):
 def _group_task(task):
     name, seed = task
     acc = Acc()
-    inst, why = T.try_get(name)
-    if inst is None:
-        acc.degrade("%s unavailable: %s" % (name, why))
+    try:
+        inst = T.get_group(name)
+    except T.HarnessError as e:
+        acc.degrade("%s unavailable: %s" % (name, e))
+        return acc
+    except Exception as e:
+        if name in T.INT_TOYS:
+            acc.violation("C15/int/group-unusable", {"what": "IntegerGroup over a valid (p, q, g) cannot be constructed: %s: %s" % (type(e).__name__, e),
+                          "replay": {"fn": "group", "name": name}, "expected": "group", "observed": ("exc", type(e).__name__)})
+        else:
+            acc.degrade("%s unavailable: %s: %s" % (name, type(e).__name__, e))
         return acc
     if inst.small:
         _group_codecs(inst, list(range(inst.q)), acc, True)
@@ -162,6 +170,8 @@ def replay(rec):
     r = T.unjson(rec["replay"])
     L = T.lib()
     fn = r["fn"]
+    if fn == "group":
+        return T.observe(lambda: T.get_group(r["name"]) and "group")
     if fn == "n2b":
         return T.observe(L.util.number_to_bytes, r["n"], r["maxval"])
     if fn == "b2n":
